@@ -80,15 +80,16 @@ func C20(o *world.Obs) *Result {
 		if d := validatorsOK(o, ex, src, c); d != "" {
 			r.Fail("C20", "bg-validators", ex.Idx, "background revalidation of s%d: %s; %s", src.Serial, d, SummarizeExchange(o, ex))
 		}
-		// cancellation
-		// a caller deadline later than start+timeout changes nothing; an earlier one may cut it short
-		callerCancelled := ex.Req.CancelNs != 0 || (ex.Req.DeadlineNs > 0 && ex.StartNs+ex.Req.DeadlineNs < c.StartNs+T)
+		// cancellation: the background request belongs to the cache, not to the caller - it is
+		// cancelled by the revalidation timeout and by nothing else (a caller whose context ends
+		// once it has its response, e.g. an http.Client with a Timeout, would otherwise never
+		// get its entries refreshed)
 		deadline := c.StartNs + T
 		if !c.HasDeadline {
 			r.Fail("C20", "bg-no-deadline", ex.Idx, "background request context has no deadline; %s", SummarizeExchange(o, ex))
 		} else if c.DeadlineNs > deadline {
 			r.Fail("C20", "bg-deadline-late", ex.Idx, "background request deadline at %s, later than start+timeout %s; %s", secs(c.DeadlineNs), secs(deadline), SummarizeExchange(o, ex))
-		} else if !callerCancelled && c.DeadlineNs != deadline {
+		} else if c.DeadlineNs != deadline {
 			r.Fail("C20", "bg-deadline-wrong", ex.Idx, "background request deadline at %s, want start+timeout = %s; %s", secs(c.DeadlineNs), secs(deadline), SummarizeExchange(o, ex))
 		}
 		slow := c.Reply != nil && (c.Reply.Kind == "hang" || c.Reply.LatencyNs > T)
@@ -99,9 +100,11 @@ func C20(o *world.Obs) *Result {
 				r.Fail("C20", "bg-not-cancelled", ex.Idx, "slow background request was never cancelled; %s", SummarizeExchange(o, ex))
 			case c.CtxDoneNs > deadline:
 				r.Fail("C20", "bg-cancelled-late", ex.Idx, "background request cancelled at %s, after start+timeout %s; %s", secs(c.CtxDoneNs), secs(deadline), SummarizeExchange(o, ex))
-			case !callerCancelled && c.CtxDoneNs != deadline:
+			case c.CtxDoneNs != deadline:
 				r.Fail("C20", "bg-cancelled-early", ex.Idx, "background request cancelled at %s, want exactly %s; %s", secs(c.CtxDoneNs), secs(deadline), SummarizeExchange(o, ex))
 			}
+		} else if c.CtxDoneNs >= 0 && c.CtxDoneNs < deadline {
+			r.Fail("C20", "bg-cancelled-by-caller", ex.Idx, "background request cancelled at %s (%s), before its timeout at %s; %s", secs(c.CtxDoneNs), c.CtxErr, secs(deadline), SummarizeExchange(o, ex))
 		}
 	}
 	if swrServes > 0 && o.Leak != "" {
